@@ -130,6 +130,12 @@ func (mem *Mempool) checkTxs(msg *queue.Message) *queue.Message {
 	if txs == nil {
 		return mem.checkTx(msg)
 	}
+	// mempool 以包装交易(msg 中的 tx)建索引、按账户计数并检查 nonce, 而验签只针对组内成员:
+	// 包装交易必须就是组内第一笔交易(Transactions.Tx() 的构造结果), 哈希与签名均一致
+	if !isGroupHead(cacheTx, txs.Txs[0]) {
+		msg.Data = types.ErrTxGroupHeader
+		return msg
+	}
 	//txgroup 的交易，逐笔走 checkTx（已含黑名单深度判定）
 	for i := 0; i < len(txs.Txs); i++ {
 		msgitem := mem.checkTx(&queue.Message{Data: txs.Txs[i]})
@@ -139,6 +145,13 @@ func (mem *Mempool) checkTxs(msg *queue.Message) *queue.Message {
 		}
 	}
 	return msg
+}
+
+// isGroupHead 包装交易与组内第一笔交易是否为同一笔交易且签名相同
+func isGroupHead(wrapper *types.TransactionCache, head *types.Transaction) bool {
+	ws, hs := wrapper.GetSignature(), head.GetSignature()
+	return bytes.Equal(wrapper.Hash(), head.Hash()) && ws.GetTy() == hs.GetTy() &&
+		bytes.Equal(ws.GetPubkey(), hs.GetPubkey()) && bytes.Equal(ws.GetSignature(), hs.GetSignature())
 }
 
 // checkLevelFee 检查阶梯手续费
